@@ -233,7 +233,7 @@ def run_c05(ctx):
             if r.get("e") == "Step" and r["pt"]["st"] == "OK" and r["host"]["st"] == "OK" and r["op"]["op"] in ("mkdir", "create", "mknod") and r["pt"]["ch"]:
                 r["pt"]["attr"]["perm"] ^= 0o022
                 return "permission bits of one created object flipped in the passthrough reply"
-    binding(ctx, "C05", all_rows, mut, r"C05\|.*\|reply")
+    binding(ctx, "C05", all_rows, mut, r"C05\|.*\|reply\|")
 
     def mut2(rows):
         for r in rows:
